@@ -1,3 +1,4 @@
+#![cfg_attr(kani, feature(allocator_api))]
 mod checkpoints;
 mod compaction_auto_summary;
 mod compaction_checkpoint_index;
